@@ -48,7 +48,7 @@ ASSUMPTIONS = [
     "violations are attributed to the client when its DATA-phase stream differs from the reference dot-stuffing "
     "(per read chunk), otherwise to the server; the verdict itself only looks at the server side",
 ]
-MIN = {"quick": {"evaluations": 40000, "nontrivial": 28000, "outcomes": 12},
+MIN = {"quick": {"evaluations": 47000, "nontrivial": 35000, "outcomes": 15},
        "thorough": {"evaluations": 410000, "nontrivial": 320000, "outcomes": 12}}
 
 LINES = [b".", b"..", b".a", b"a", b"", b"a.b", b"h:v", b"a."]
